@@ -20,7 +20,7 @@ man = {
         "name": "gosym",
         "path": "/verif/gosym",
         "serves_properties": sorted(checks.CHECKS.keys()),
-        "kind_free_text": "bounded symbolic executor for Go written for this task: interprets go/ssa of /repo's working tree (fsutil and its dependencies, from source) over SMT bit-vector terms, forks on solver-feasible branches, discharges assertions with z3 4.8.12 (cross-checked on z3 5.1.0 and cvc5 in the thorough tier), replays every counterexample natively with go test -overlay before reporting",
+        "kind_free_text": "bounded symbolic executor for Go written for this task: interprets go/ssa of /repo's working tree (fsutil and its dependencies, from source) over SMT bit-vector terms, forks on solver-feasible branches, discharges assertions with z3 5.1.0 (verdicts cross-checked on z3 4.8.12 and cvc5 in the thorough tier), can make scheduling decisions solver-chosen values (delay-bounded schedule exploration) with happens-before race detection, and replays every counterexample natively with go test -overlay before reporting",
     }],
     "checks": [],
     "not_applicable": [{"property_id": k, "reason": v} for k, v in sorted(NOT_APPLICABLE.items())],
